@@ -324,6 +324,38 @@ def check_property(pid, tier, repo, scratch, seed):
             concrete = replay_engine.search(pid, new_fail + inconclusive, repo, scratch, tags=pm.get('replay_tags'))
         except Exception as ex:  # the search is best effort
             concrete = {'found': False, 'error': repr(ex)}
+        others = concrete.get('counterexamples_for_other_properties') or []
+        if new_fail and not concrete.get('found') and others:
+            # The search did find failing inputs on the real code, but for other properties only (and none for this one among
+            # the histories that do not fail for those).  A failed obligation that is this property's own statement still
+            # counts; one that only takes away a lemma / invariant the proof leaned on leaves the property undecided.
+            tops_all = [t for ts in (pm.get('verus') or {}).values() for t in ts]
+
+            def tail2(n):
+                return '::'.join((n or '').split('::')[-2:])
+
+            def direct(f):
+                if f.get('concrete_input') or (f.get('function') or '').startswith(('kani::', 'regression')):
+                    return True
+                texts = ' '.join([f.get('site_text') or ''] + [x.get('text') or '' for x in f.get('sites', [])])
+                if ('// ' + pid) in texts:
+                    return True
+                if f.get('in_primary') is False:
+                    return False
+                is_top = any(tail2(t) == tail2(f.get('function')) for t in tops_all)
+                k = f.get('kind', '')
+                if relv.get('safety'):
+                    return True
+                if is_top and 'postcondition not satisfied' in k:
+                    clause = ' '.join(x.get('text') or '' for x in f.get('sites', []) if 'postcondition' in (x.get('label') or ''))
+                    return not any(w in clause for w in INV_WORDS) or pm.get('invariant_property', False)
+                return False
+            keep = [f for f in new_fail if direct(f)]
+            if not keep:
+                for f in new_fail:
+                    inconclusive.append(dict(f, why='an obligation in the cone failed, but on the real code the change is shown to break other properties only (%s); no failing input for this property among 4000 histories: undecided'
+                                             % ','.join(sorted(set(t for o in others for t in o.get('tags', []))))))
+                new_fail = []
         if concrete.get('found') and not new_fail:
             # an undecided obligation plus a concrete failing input for this property on the real code: a violation
             new_fail = [dict(x) for x in inconclusive if x.get('function')][:3] or [{'function': None, 'kind': 'undecided obligation', 'site_text': ''}]
